@@ -33,10 +33,17 @@ theorem histOk_of_no_hist (lb : Lb) (hh : lb.hist = []) (hu : lb.histU = 0) (hl 
     simp only [List.take_nil, applyFwd] at hm
     exact (hl l hm).noNul
 
-/-- no `/` among the pending keys: nothing to assume about counted searches -/
-theorem slashOk_of_no_slash {s : VS} (h : (47 : Int) ∉ allQ s) : SlashOk s := by
-  intro s1 cnt r o ⟨a1, _⟩ _ _
-  exact absurd (a1.subset (by simp)) h
+/-- no search key (`/ ? n N ^A`) among the pending keys and a remembered pattern without NUL: `SearchOk` -/
+theorem searchOk_of_no_search {s : VS} (h : ∀ k ∈ searchKeys, k ∉ allQ s) (hk : NoNul s.ed.xkwd) : SearchOk s := by
+  refine ⟨?_, hk, ?_⟩
+  · intro s1 cnt r o ⟨a1, _⟩ _ _
+    exact absurd (a1.subset (by simp)) (h 47 (by decide))
+  · intro s1 cmd ab s2 ⟨⟨k, hk1, hk2⟩, _⟩ _ _ _
+    exact absurd (hk2.subset (by simp)) (h k hk1)
+
+/-- neither `:` nor `Z` among the pending keys: no ex command is entered, `ColonOk` -/
+theorem colonOk_of_no_colon {s : VS} (h1 : (58 : Int) ∉ allQ s) (h2 : (90 : Int) ∉ allQ s) : ColonOk s :=
+  ⟨fun s0 ln s1 ⟨_, a2⟩ _ _ => absurd (a2.subset (by simp)) h1, fun s0 ⟨_, a2⟩ => absurd (a2.subset (by simp)) h2⟩
 
 /-- no mark is set: `MarksIn` -/
 theorem marksIn_of_no_marks {s : VS} (h : ∀ lb, s.ed.lb = some lb → ∀ i, lb.mark.getD i (-1) = -1) : MarksIn s := by
@@ -100,24 +107,40 @@ theorem exSt_caret (keys : Bytes) : MarksIn (markCaret (exSt keys 0 0)) := by
   · show (0 : Int) ≤ slenAt (lines (exSt keys 0 0)) 0
     exact slenAt_nonneg _ _
 
-/-- **the hypotheses of `viStep_no_trap` hold on the example state**, for all keys without a `/` -/
-theorem exSt_stepHyp (keys : Bytes) (h : 47 ∉ keys) : StepHyp (exSt keys 0 0) :=
+theorem exSt_allQ (keys : Bytes) (k : Nat) (h : k ∉ keys) : ((k : Nat) : Int) ∉ allQ (exSt keys 0 0) := by
+  show ((k : Nat) : Int) ∉ ([] : List Int) ++ (([] : Bytes).drop 0 ++ keys).map Int.ofNat
+  simp only [List.nil_append, List.drop_nil, List.mem_map, not_exists, not_and]
+  intro x hx hx2
+  have : x = k := by
+    have h1 : ((x : Nat) : Int) = ((k : Nat) : Int) := hx2
+    exact_mod_cast h1
+  subst this; exact h hx
+
+/-- the keys that start a search or an ex command: `/ ? n N ^A : Z` -/
+def specialKeys : List Nat := [47, 63, 110, 78, 1, 58, 90]
+
+/-- **the hypotheses of `viStep_no_trap` hold on the example state**, for all keys without `/ ? n N ^A : Z` -/
+theorem exSt_stepHyp (keys : Bytes) (h : ∀ k ∈ specialKeys, k ∉ keys) : StepHyp (exSt keys 0 0) :=
   { noquit := rfl
     marks := exSt_marks keys 0 0
     caret := exSt_caret keys
-    slash := slashOk_of_no_slash (by
-      show (47 : Int) ∉ ([] : List Int) ++ (([] : Bytes).drop 0 ++ keys).map Int.ofNat
-      simp only [List.nil_append, List.drop_nil, List.mem_map, not_exists, not_and]
-      intro x hx hx2
-      have : x = 47 := by
-        have h1 : ((x : Nat) : Int) = 47 := hx2
-        exact_mod_cast h1
-      subst this; exact h hx) }
+    search := searchOk_of_no_search (by
+      intro k hk
+      unfold searchKeys at hk
+      simp only [List.mem_cons, List.not_mem_nil, or_false] at hk
+      rcases hk with rfl | rfl | rfl | rfl | rfl
+      · exact exSt_allQ keys 47 (h 47 (by decide))
+      · exact exSt_allQ keys 63 (h 63 (by decide))
+      · exact exSt_allQ keys 110 (h 110 (by decide))
+      · exact exSt_allQ keys 78 (h 78 (by decide))
+      · exact exSt_allQ keys 1 (h 1 (by decide))) (by show NoNul ([] : Bytes); exact noNul_nil)
+    colon := colonOk_of_no_colon (exSt_allQ keys 58 (h 58 (by decide))) (exSt_allQ keys 90 (h 90 (by decide))) }
 
-/-- … so, given the assumptions on the regex and the ex layer, no key sequence without `/` makes the first
-    command on the example buffer trap -/
-theorem exSt_no_trap (hE : EngineOk) (hX1 : ExNoTrap) (hX2 : ExKeeps) (keys : Bytes) (h : 47 ∉ keys) :
+/-- … so no key sequence without `/ ? n N ^A : Z` makes the first command on the example buffer trap — **no
+    hypothesis about any other layer is left** -/
+theorem exSt_no_trap (keys : Bytes) (h : ∀ k ∈ specialKeys, k ∉ keys) :
     viStep (exSt keys 0 0) ≠ Res.trap :=
-  viStep_no_trap hE hX1 hX2 (exSt_viOk keys) (exSt_marks keys 0 0) (exSt_caret keys) (exSt_stepHyp keys h).slash
+  viStep_no_trap (exSt_viOk keys) (exSt_marks keys 0 0) (exSt_caret keys) (exSt_stepHyp keys h).search
+    (exSt_stepHyp keys h).colon
 
 end Neatvi.Lemmas.C05f
